@@ -274,6 +274,35 @@ func hashMain(args []string) {
 			}
 		}
 	}
+	// ---- the string helpers: CalculateHash / CalculateStringHash / CalculateMD5Hash ------------
+	for i := 0; i < n/4+8; i++ {
+		b := make([]byte, rnd.Intn(120))
+		for j := range b {
+			b[j] = byte(rnd.U64())
+		}
+		if i%2 == 0 { // printable text
+			for j := range b {
+				b[j] = byte(' ' + rnd.Intn(95))
+			}
+		}
+		text := string(b)
+		for _, algo := range hashAlgos {
+			hh, _ := hashing.NewHashingAlgorithm(algo)
+			got1 := hashing.CalculateHash(text, algo)
+			got2 := hashing.CalculateStringHash(hh, text)
+			got3 := hashing.CalculateStringHash(hh, text) // the same hasher again
+			want := refDigest(algo, b)
+			rep.Eval(fmt.Sprintf("string-helpers %s %x", algo, b), len(b) > 0)
+			rep.Hist("string-helpers")
+			if got1 != want || got2 != want || got3 != want || hh.GetType() != algo {
+				rep.Fail(hx.Failure{Kind: "impl-violates-property", Key: "string-helper-digest-mismatch", Case: fmt.Sprintf("CalculateHash / CalculateStringHash algo=%s text=%x", algo, b),
+					Expected: want, Observed: fmt.Sprintf("CalculateHash=%s CalculateStringHash=%s, again=%s, type=%s", got1, got2, got3, hh.GetType())})
+			}
+		}
+		if got := hashing.CalculateMD5Hash(text); got != refDigest(hashing.HashMd5, b) {
+			rep.Fail(hx.Failure{Kind: "impl-violates-property", Key: "string-helper-digest-mismatch", Case: fmt.Sprintf("CalculateMD5Hash text=%x", b), Expected: refDigest(hashing.HashMd5, b), Observed: got})
+		}
+	}
 	// ---- two hashers of the same algorithm whose calculations overlap -------------------------
 	// (a stream whose Read runs a complete calculation on ANOTHER hasher object: hashers are independent objects)
 	for i := 0; i < n/8+6; i++ {
